@@ -51,8 +51,8 @@ func Fail(t TB, sig string, format string, args ...any) {
 	msg := fmt.Sprintf(format, args...)
 	if _, dup := printed.LoadOrStore(sig, true); !dup {
 		one := strings.ReplaceAll(msg, "\n", " | ")
-		if len(one) > 600 {
-			one = one[:600] + "..."
+		if len(one) > 4000 {
+			one = one[:4000] + "..."
 		}
 		fmt.Fprintf(os.Stdout, "VKIT-VIOLATION sig=%s msg=%s\n", sig, one)
 	}
